@@ -8,6 +8,9 @@ mod rng;
 mod util;
 mod eng_link;
 mod eng_transport;
+mod eng_ffi;
+mod eng_ffi_db;
+mod ffi_probe_gen;
 mod eng_parse;
 mod eng_convert;
 mod eng_outstation;
@@ -33,6 +36,7 @@ fn main() {
                 "transport" => eng_transport::gen_transport(thorough, seed, &mut out),
                 "linkaddr" => eng_transport::gen_linkaddr(thorough, seed, &mut out),
                 "parse" => eng_parse::gen(thorough, seed, &mut out),
+                "ffi" => eng_ffi::gen(thorough, seed, &mut out),
                 "convert" => eng_convert::gen(thorough, seed, &mut out),
                 "outstation" => gen_outstation::gen(thorough, seed, &mut out, gen_outstation::GenCfg { with_db: false }),
                 _ => {
@@ -51,6 +55,7 @@ fn main() {
                 "link" => eng_link::run(&ops, &mut out, &mut mon),
                 "transport" | "linkaddr" => eng_transport::run(&ops, &mut out, &mut mon),
                 "parse" => eng_parse::run(&ops, &mut out, &mut mon),
+                "ffi" => eng_ffi::run(&ops, &mut out, &mut mon),
                 "convert" => eng_convert::run(&ops, &mut out, &mut mon),
                 "outstation" => eng_outstation::run(&ops, &mut out, &mut mon),
                 _ => {
